@@ -237,7 +237,7 @@ def main(chk):
                 'rmf rows sum to 1, 375-channel bounds, on-axis vignetting 1, PSF EEF monotone in [0, 1]; load_irf_set members and self-consistency with and without gray filter. '
                 'non-trivial = a flag set')
     chk.assumptions = TRUSTED
-    chk.lean(['IxpeVerif.Props.C12', 'IxpeVerif.Props.Audit.C12'], ['irf_file_name', 'supports_simple_weighting'])
+    chk.lean(['IxpeVerif.Props.C12', 'IxpeVerif.Props.Audit.C12'], ['irf_file_name', 'supports_simple_weighting', 'fwd_irf_file_path', 'fwd_load_irf_base', 'fwd_load_arf', 'fwd_load_vign', 'fwd_load_psf', 'fwd_load_modf', 'fwd_load_mrf', 'fwd_load_rmf', 'fwd_irf_set', 'fwd_load_irf_set'])
     explore(chk)
     return chk.finish(level='proof', trusted=TRUSTED, search=lambda k: explore(chk, 2))
 
